@@ -91,7 +91,7 @@ def run(ck, prog, ctx):
             ck.undecided("TABLE", "slot/" + k, "shape not recognised")
             continue
         ck.ob("TABLE", "slot/" + k, v == ref, "reserved placeholder count: %s = %s, Arena::default pushes %s placeholder(s)" % (k, v, ref))
-    ck.floor("TABLE", "slot constants", len([v for v in consts.values() if v is not None]), 5)
+    ck.floor("TABLE", "slot constants", len([v for v in consts.values() if v is not None]), 3)
     # the id -> slot table has one entry for EVERY id of the id space: ids are the numbers of <width> decimal digits that
     # `Display for HpoTermId` renders, so the table needs at least 10^width entries (Arena::insert indexes it unchecked)
     W = termid_display_width(prog)
